@@ -54,7 +54,10 @@ func (bg *BondgoCheck) Create_Connecting_Processor(rsize int, procid int) (*proc
 	if prog, err := myarch.Assembler([]byte(prog)); err == nil {
 		mymachine.Program = prog
 	} else {
+		// The assembly the compiler produced is refused by the assembler: there is no program
+		// to put in the ROM, so there is no machine to return
 		fmt.Println(err)
+		return nil, false
 	}
 
 	return mymachine, true
